@@ -8,7 +8,7 @@ import itertools, os, re, time, json
 from z3 import Solver, And, Or, Not, sat, unsat, is_true, BoolVal, Int, Bool
 from vlib.common import rl, Inconclusive, REPO, log, tier
 from . import sem
-from .sem import Enc, V, NotEncodable, Unresolved, bag_eq, seq_eq_vals, card, model_tables, model_rel, mval
+from .sem import Enc, V, NotEncodable, Unresolved, EnginePanics, bag_eq, seq_eq_vals, card, model_tables, model_rel, mval
 from .sexp import parse, show, subst, atoms, norm, lst
 from .instantiate import Instantiator, CannotInstantiate, is_scalar_rule, ddl, tables_for_enc, decode_uf, NTABLES
 from .realize import uf_tables, realize, inserts, lit
@@ -288,7 +288,7 @@ def rhs_sorted_like(enc, L, R, lhs):
         return None
 
 
-KEY_AXES = ('jt', 'sortsrc')   # variant axes that select different semantics; parameter sweeps are folded into one finding
+KEY_AXES = ('jt', 'sortsrc', 'childshape')   # variant axes that select different semantics; parameter sweeps are folded into one finding
 
 
 def inst_key(rule, choice):
@@ -378,8 +378,37 @@ def solve_task_at(task, K):
     except NotEncodable as ex:
         res.update(verdict='skip', why='not encodable: %s' % ex)
         return res
+    except EnginePanics as ex:
+        db = {str(i): [[1, 1], [2, 2]] for i in range(NTABLES)}
+        rep = replay_plans(lhs, rhs, db, {}, wrap, None, None, False, allpk)
+        how = rep.get('how', {})
+        ok_l, ok_r = how.get('engine_lhs') is not None, how.get('engine_rhs') is not None
+        if not ok_l and not ok_r:
+            res.update(verdict='skip', why='both sides make the executor panic (%s)' % ex)
+            return res
+        res.update(verdict='dangling', what='rewrite %s yields a plan on which the executor panics (%s): %s => %s' % (rule.name, ex, show(lhs), show(rhs)),
+                   replay=rep, reproduced=(ok_l != ok_r))
+        return res
     except Unresolved as ex:
-        res.update(verdict='dangling', what='rewrite %s yields a plan with a dangling column reference %s: %s => %s' % (rule.name, ex, show(lhs), show(rhs)))
+        # replay: on any non-empty database the lhs instance runs and the rewritten plan cannot be built
+        db = {str(i): [[1, 1]] for i in range(NTABLES)}
+        ones = {}
+
+        def collect(e):
+            d = decode_uf(e)
+            if d is not None:
+                ones[d[0]] = {tuple([1] * len(d[2])): (True if d[1] == 'B' else 1)}
+                for a in d[2]:
+                    collect(a)
+            elif isinstance(e, list):
+                for x in e:
+                    collect(x)
+        collect(lhs), collect(rhs)
+        rep = replay_plans(lhs, rhs, db, ones, wrap, None, None, False, allpk)
+        how = rep.get('how', {})
+        ok_l, ok_r = how.get('engine_lhs') is not None, how.get('engine_rhs') is not None
+        res.update(verdict='dangling', what='rewrite %s yields a plan with a dangling column reference %s: %s => %s' % (rule.name, ex, show(lhs), show(rhs)),
+                   replay=rep, reproduced=(True if (ok_l and not ok_r) else (False if (ok_l and ok_r) else None)))
         return res
     g = []
     for x in goal:
@@ -424,7 +453,7 @@ def absorb(report, res):
         report.skip(res['desc'], res['why'])
         return
     if v == 'dangling':
-        out = report.counterexample(res['key'], res['what'][:600], {'rule': res['text'], 'lhs': res['lhs'], 'rhs': res['rhs']}, None)
+        out = report.counterexample(res['key'], res['what'][:600], {'rule': res['text'], 'lhs': res['lhs'], 'rhs': res['rhs'], 'replay': res.get('replay')}, res.get('reproduced'))
         report.obligation(out == 'known')
         report.cov['programs'] += 1
         return
@@ -487,6 +516,9 @@ def replay_plans(lhs, rhs, db, ufs, wrap, rows_l, rows_r, ordered, allpk=False):
         # one side cannot run (e.g. apply / right_outer nested-loop join): compare the side that runs with the encoding's
         # prediction for it; the other side's rows are the encoding's
         run, pred_run = (b, rows_r) if a is None else (a, rows_l)
+        if pred_run is None:
+            how['note'] = 'one side not executable (%s)' % ((res[0] if a is None else res[1]).get('err') or 'panic')
+            return {'reproduced': None, 'how': how}
         agrees = canon_rows(run) == canon_rows(to_engine_rows(pred_run))
         how['note'] = 'model-referenced: one side not executable (%s); executable side %s the encoding' % (
             (res[0] if a is None else res[1]).get('err') or 'panic', 'matches' if agrees else 'DIFFERS from')
